@@ -108,6 +108,7 @@ namespace hs
         void op_foreign(const sim::Op& op);
         void op_corrupt(const sim::Op& op);
         void op_foreign_adjacent(const sim::Op& op);
+        void op_drain(const sim::Op& op);
         void op_corsweep(const sim::Op& op);
         std::size_t fence_of(ObjSt& S);
 
